@@ -131,8 +131,10 @@ def cmd_check(prop, tier, args):
             # the minimised history must reproduce in a fresh interpreter before it is reported
             rc, out = replay_in_fresh_process(prop, path)
             if rc != EXIT_VIOLATION or ("digest=%s" % mr["digest"]) not in out:
-                print("HARNESS-ERROR replay of %s did not reproduce (rc=%s)\n%s" % (path, rc, out[-2000:]))
-                return EXIT_HARNESS
+                # same rule as for a run that does not reproduce: remembered, not reported, not fatal while
+                # another violating run may still reproduce
+                unreproducible.append("replay of %s did not reproduce in a fresh interpreter (rc=%s)" % (path, rc))
+                continue
             new_violations.append((sig, path, what))
 
     if unreproducible and not new_violations:
